@@ -100,16 +100,24 @@ def filter_rule(run, model, rule="C20.filter"):
     flow = get_flow(model, fi)
     run.saw(flow)
     rt = Summaries(model).return_term(fi)
+    vp = ("param", fi.params[0])
+    kinds = {"class": "isclass", "function": "isfunction", "method": "ismethod", "module": "ismodule", "builtin": "isbuiltin", "plain value": None}
     preds = set()
-    ok = rt[0] == "op" and rt[1] == "And"
-    if ok:
-        for x in rt[2]:
-            if x[0] == "op" and x[1] == "Not" and x[2][0][0] == "call" and x[2][0][1][0] == "attr" and x[2][0][1][1] == ("module", "inspect") and x[2][0][2] == (("param", fi.params[0]),):
-                preds.add(x[2][0][1][2])
-            else:
-                ok = False
-    want = {"isclass", "isfunction", "ismethod", "ismodule", "isbuiltin"}
-    run.check(ok and preds == want, rule, fi.qual, "not (class or function or method or module or builtin)", "the filter is %s; expected exactly the five kinds class/function/method/module/builtin to be left out" % (sorted(preds) if ok else show(strip_sites(rt), 120)), fi.loc())
+    for s_ in subterms(rt):
+        if s_[0] == "call" and s_[1][0] == "attr" and s_[1][1] == ("module", "inspect"):
+            preds.add(s_[1][2])
+    for kind, pred in kinds.items():
+        def ev(t, pred=pred):
+            ts = strip_sites(t)
+            if ts[0] == "call" and ts[1][0] == "attr" and ts[1][1] == ("module", "inspect") and ts[2] == (vp,):
+                name = ts[1][2]
+                if name in kinds.values():
+                    return name == pred
+                return None  # an inspect predicate the table does not know: free
+            return None
+        got = tables.evaluate(strip_sites(rt), ev)
+        want = pred is None
+        run.check(got is want, rule, "%s[%s]" % (fi.qual, kind), "representable: %s" % want, "a %s is %s (expected: %s); the filter is %s" % (kind, {True: "shown", False: "left out", None: "shown or not depending on something else"}[got], "shown" if want else "left out", show(strip_sites(rt), 120)), fi.loc(), None, kind)
     # the argument entries are guarded by it, and only by (already shown, representable)
     rv = model.func("_represent.repr_values")
     fl = get_flow(model, rv)
@@ -281,8 +289,27 @@ def text_and_assembly(run, model, rule_text="C07.text", rule_asm="C07.assembly")
                             if l == ("attr", C, "description"):
                                 return desc if ts[1] == "cmp:IsNot" else (not desc)
                             return ts[1] == "cmp:IsNot"
-                        if ts[0] == "op" and ts[1] == "cmp:Eq" and ts[2][0][0] == "call" and ts[2][0][1] == ("builtin", "len") and ts[2][1][0] == "const":
-                            return nvals == int(ts[2][1][1])
+                        if ts[0] == "op" and ts[1].startswith("cmp:") and len(ts[2]) == 2 and ts[2][0][0] == "call" and ts[2][0][1] == ("builtin", "len") and ts[2][1][0] == "const":
+                            try:
+                                c = int(ts[2][1][1])
+                            except ValueError:
+                                return None
+                            op = ts[1][4:]
+                            # nvals 2 stands for "two or more"
+                            if op == "Eq":
+                                return nvals == c if not (nvals == 2 and c >= 2) else None
+                            if op == "NotEq":
+                                return nvals != c if not (nvals == 2 and c >= 2) else None
+                            if op == "Gt":
+                                return nvals > c if not (nvals == 2 and c >= 2) else None
+                            if op == "GtE":
+                                return nvals >= c if not (nvals == 2 and c > 2) else None
+                            if op == "Lt":
+                                return nvals < c if not (nvals == 2 and c > 2) else None
+                            if op == "LtE":
+                                return nvals <= c if not (nvals == 2 and c >= 2) else None
+                        if ts[0] == "call" and fi_of_term(model, ts[1]) is not None and fi_of_term(model, ts[1]).name == "repr_values":
+                            return nvals > 0  # truthiness of the list of value lines
                         return None
                     feas = [p for p in ps if tables.feasible(p, ev)]
                     construct = "%s[%s condition, location %s, description %s, %d value line(s)]" % (gm.qual, "lambda" if lam else "named", "set" if loc else "unset", "set" if desc else "unset", nvals)
